@@ -104,7 +104,7 @@ def r2_edit_prov(c, facts):
     else:
         c.bad(R, 'binder-not-renamed', 'rename_variable no longer edits the binder itself')
     pr = c.anchor(R, 'oal_client::lsp::handlers::prepare_rename')
-    hir_ident = any(e['k'] == 'call' and (callee_def(e) or '').endswith('handlers::syntax_at') and 'Identifier' in e['ty'] for e, _ in hir_walk(pr.hir['body']))
+    hir_ident = any(e['k'] == 'call' and (callee_def(e) or '').endswith('handlers::syntax_at') and 'Identifier' in e['ty'] for f2 in facts.family(pr) if f2.hir for e, _ in hir_walk(f2.hir['body']))
     if hir_ident:
         c.ok(R, {'prepare_rename': 'offers only Identifier nodes (syntax_at::<Identifier>)'})
     else:
@@ -145,7 +145,9 @@ def r4_qualifier_local(c, facts):
 def r6_prepare_target(c, facts):
     """prepareRename offers the range of the identifier that rename will replace, selected through the same accessors"""
     R = c.rule('C18.R6', 'PREPARE-TARGET: the range offered by prepareRename is the identifier node that rename edits (declaration, qualifier or unqualified variable identifier), not the token under the cursor')
-    pr = c.anchor(R, 'oal_client::lsp::handlers::prepare_rename')
+    pr0 = c.anchor(R, 'oal_client::lsp::handlers::prepare_rename')
+    # a private helper selecting the node (`renamable_node(tree, index)`) is looked through
+    pr = facts.inlined(pr0, keep=('identifier', 'syntax_at', 'utf8_range_to_position', 'position_to_utf8', 'read_file', 'node', 'span', 'cast'))
     idx = MF.defs_index(pr)
     sites = P.call_blocks(pr, 'unicode::utf8_range_to_position')
     if not sites:
@@ -156,7 +158,7 @@ def r6_prepare_target(c, facts):
         sl = MF.slice_back(pr, t['args'][1]['l'], idx)
         names = {'::'.join(P.strip(n).split('::')[-2:]) for n, _, _ in sl['calls']}
         # accessors applied in closures (`Variable::cast(parent).map(|var| var.identifier().node())`) count too
-        for cl in facts.closures_of(pr):
+        for cl in [x for x in facts.family(pr0) if x.kind == 'Closure']:
             names |= {'::'.join(P.strip(callee_of(t2)['def']).split('::')[-2:]) for b2, t2 in cl.calls() if callee_of(t2)}
         got = {w for w in want if any(n.endswith(w) for n in names)}
         direct = any(P.strip(n).endswith('handlers::syntax_at') for n, _, _ in sl['calls']) and not got
